@@ -425,7 +425,9 @@ pub fn run(report: &mut Report) {
     for (name, _) in &damaged {
         let what: &'static str = Box::leak(format!("damaged key file {name}").into_boxed_str());
         agent_cases.push((pk("client.crt"), bundle(name), what, true));
-        if thorough {
+        // a section labelled CERTIFICATE that is handed over as the certificate is public data as far as anybody
+        // can tell (it is sent to the peer): that combination is not a case
+        if thorough && *name != "labelled-certificate.key" {
             let what: &'static str = Box::leak(format!("damaged key file {name} at the certificate path").into_boxed_str());
             agent_cases.push((bundle(name), pk("client.key"), what, true));
         }
